@@ -1847,6 +1847,13 @@ impl E2e {
             self.link_send(i, f);
         }
         self.check_deadline_invariant(i, "after poll");
+        {
+            let e = &self.eps[i];
+            if matches!(e.sock_ref().state(), tcp::State::FinWait2 | tcp::State::TimeWait) && e.txo.fin_off.is_none() {
+                let d = format!("case {} t={}us {}: state {} (own FIN acknowledged) although the socket never emitted a FIN; {}", id, now, e.name, state_name(e.sock_ref().state()), e.describe());
+                self.out.fail("c02-fin-acked-never-sent", d);
+            }
+        }
         // schedule an early probe strictly before the deadline (or at some instant if there is none)
         if self.cfg.probe && !probing {
             let e = &mut self.eps[i];
@@ -2506,6 +2513,10 @@ impl RxSim {
             self.on_socket_segment(&s);
         }
         self.deadline_invariant("after poll");
+        if matches!(self.sock_ref().state(), tcp::State::FinWait2 | tcp::State::TimeWait) && self.txo.fin_off.is_none() {
+            let d = format!("case {} t={}us: state {} (own FIN acknowledged) although the socket never emitted a FIN; {}", self.id, now, state_name(self.sock_ref().state()), self.describe());
+            self.out.fail("c02-fin-acked-never-sent", d);
+        }
     }
 
     /// receiver-side oracle on a segment the socket emitted
